@@ -123,7 +123,16 @@ def eval_case(case):
     bad = lambda what, detail: out.append({'key': 'C16:' + what, 'what': '%s: %s' % (what, detail), 'case': case})
     try:
         core.arm()
-        lines = parse_hlog_data(memoryview(data), path)
+        if case.get('via') == 'plugin':
+            # the same bytes through the I/O drawer plug-in (user data sub-type 72, version = drawer type)
+            from udparsers.m2c00.m2c00 import parseUDToJson
+            from io_drawer.drawer_type import DRAWER_TYPES
+            ver = [dt.user_data_version for dt in DRAWER_TYPES if dt.name == case['type']][0]
+            lines = json.loads(parseUDToJson(72, ver, memoryview(data))).get('History Log')
+            if not isinstance(lines, list):
+                raise ValueError('plug-in returned no History Log lines: %r' % (lines,))
+        else:
+            lines = parse_hlog_data(memoryview(data), path)
         core.disarm()
     except Exception as e:
         core.disarm()
@@ -185,6 +194,10 @@ def run_chunk(chunk):
         for n in range(0, total + 3):
             for fill in (bytes(n), b'\xff' * n, bytes((i * 7 + 1) & 0xff for i in range(n))):
                 _do(res, {'type': t, 'data': fill.hex()})
+        # every length up to well past the full record, through the plug-in entry point too (it must not trim anything)
+        for n in range(1, total + 24):
+            for fill in (b'\xff' * n, bytes((i * 5 + 3) & 0xff for i in range(n))):
+                _do(res, {'type': t, 'data': fill.hex(), 'via': 'plugin'})
         offs = []
         o = 0
         for name, s in fields:
